@@ -80,7 +80,8 @@ def make_plaintext(cls: str, n: int, seed: int, period: int = 7) -> bytes:
 
 
 deltas = st.sampled_from([-1000, -259, -258, -3, -2, -1, 0, 1, 2, 3, 100, 255, 256, 257, 258, 259, 260, 1000, 5000])
-sizes_small = st.sampled_from([0, 1, 15, 16, 17, 1000, 65535, 65536, 100000])
+# around the multiples of 64 KiB too (a piecewise inflater has its chunk boundaries there)
+sizes_small = st.sampled_from([0, 1, 15, 16, 17, 1000, 65535, 65536, 100000, 65537, 65541, 65600, 131071, 131073, 131172, 196609, 196613])
 
 
 @st.composite
